@@ -259,8 +259,10 @@ def build(case: dict, world: World):
             img = WX.render(cfg, lay, views[i], parent_entries=pe, name=names[i])
             if case["loc"] == "absolute" and i < n - 1:
                 world.fs.add("/C:/hv/" + dirs[i] + "/" + names[i], img.files[names[i]])
+                world.note_fields(img, names[i], "/C:/hv/" + dirs[i] + "/" + names[i])
             else:
                 world.fs.add(root + "/" + dirs[i] + "/" + names[i], img.files[names[i]])
+                world.note_fields(img, names[i], root + "/" + dirs[i] + "/" + names[i])
         paths = [(("/C:/hv/" if (case["loc"] == "absolute" and i < n - 1) else root + "/") + dirs[i] + "/" + names[i]) for i in range(n)]
         top = paths[-1]
         if fault in ("missing_parent", "eacces_parent", "corrupt_parent") and n > 1:
@@ -307,6 +309,7 @@ def build(case: dict, world: World):
                 cfg = dict(L["exts"][0], embed_desc=True, cid=L["cid"])
                 img = WV.render(cfg, sub, views[i], name="L%d.vmdk" % i, parent_cid=pcid, parent_hint=hint)
                 world.fs.add(d + "/L%d.vmdk" % i, img.files["L%d.vmdk" % i])
+                world.note_fields(img, "L%d.vmdk" % i, d + "/L%d.vmdk" % i)
             else:
                 tname = {"hosted": "SPARSE", "cowd": "VMFSSPARSE", "sesparse": "SESPARSE", "flat": "FLAT"}[L["kind"]]
                 for j, cfg in enumerate(L["exts"]):
@@ -315,6 +318,7 @@ def build(case: dict, world: World):
                     xname = "L%d-x%03d.vmdk" % (i, j)
                     img = WV.render(cfg, sub, ExtView(views[i], s, e - s), name=xname)
                     world.fs.add(d + "/" + xname, img.files[xname])
+                    world.note_fields(img, xname, d + "/" + xname)
                     lines.append(f'RW {e - s} {tname} "{xname}"' + (" 0" if tname == "FLAT" else ""))
                 ctype = {"hosted": "twoGbMaxExtentSparse", "cowd": "vmfsSparse", "sesparse": "seSparse", "flat": "twoGbMaxExtentFlat"}[L["kind"]]
                 text = WV.descriptor_text(L["cid"], pcid, ctype, lines, hint)
@@ -411,6 +415,7 @@ def build(case: dict, world: World):
                 img = WQ.render(cfg, [WQ.Root(lay, views[i])], name="L%d.qcow2" % i)
                 for nm, f in img.files.items():
                     world.fs.add(d + "/" + (nm if nm != "disk.data" else "L%d.data" % i), f)
+                    world.note_fields(img, nm, d + "/" + (nm if nm != "disk.data" else "L%d.data" % i))
 
             def open_layer(i, mode):
                 from dissect.hypervisor.disk import qcow2 as Q
@@ -451,6 +456,7 @@ def build(case: dict, world: World):
         img = WQ.render(cfg0, roots, name="disk.qcow2")
         for nm, f in img.files.items():
             world.fs.add(d + "/" + nm, f)
+            world.note_fields(img, nm, d + "/" + nm)
         state = {}
 
         def open_fn(vi):
@@ -482,6 +488,7 @@ def build(case: dict, world: World):
     for i, lay in enumerate(layers):
         img = WD.render(case["layers"][i]["cfg"], lay, views[i], parent=({} if i else None))
         world.fs.add(d + "/L%d.vdi" % i, img.files["disk.vdi"])
+        world.note_fields(img, "disk.vdi", d + "/L%d.vdi" % i)
 
     def open_vdi(i):
         from dissect.hypervisor.disk.vdi import VDI
